@@ -202,7 +202,7 @@ def r1(run, ctx):
                       'rebinds it' % (norm_text(before[0].ast) if before else ''),
                       construct='config mutated before _cfg snapshot')
     rf = ctx.fn(A + 'reload_from_config')
-    run.check('R1', astq.has_pattern(rf.node, '$n[$k] != $s._cfg'), 'reloadconfig compares the '
+    run.check('R1', (astq.has_pattern(rf.node, '$n[$k] != $s._cfg') or astq.has_pattern(rf.node, '$s._cfg != $n[$k]')), 'reloadconfig compares the '
               'section with that snapshot', rf, rf.node)
     # close
     cl = ctx.fn(S + 'close')
@@ -223,6 +223,16 @@ def r1(run, ctx):
             if any(k in txt for k in ('stream', '_file', 'handler', 'fd', 'pipe', 'stdout',
                                       'stderr', 'ctrl_socket', 'evpub', 'f')):
                 continue
+            # a local: where does it come from?  Only something taken out of the managed
+            # table (self.sockets / get_socket) can be a managed socket
+            if isinstance(s.call, ast.Call) and isinstance(s.call.func, ast.Attribute) and \
+                    isinstance(s.call.func.value, ast.Name):
+                from sa.dataflow import reaching_defs
+                alts = reaching_defs(ctx, caller).expand(s.node, s.call.func.value)
+                origins = [a.text() for a in alts]
+                if origins and not any(a.text() == txt for a in alts) and \
+                        not any('sockets' in o or 'get_socket' in o for o in origins):
+                    continue
         n += 1
         run.check('R1', caller.key in allowed_close, 'managed sockets are closed only at '
                   'shutdown or when the configuration removes them', caller, s.node.ast,
